@@ -120,10 +120,17 @@ CONSTANTS MaxLoads = {n}
   PrefixIds = {prefixes}
   KnownDev = {known}
   WithIntro = {intro}
+  Vias = {vias}
+  TypesOnly = {typesonly}
 INVARIANTS AlwaysValid AsIfNeverHappened Emit
 PROPERTIES Atomic
 CHECK_DEADLOCK FALSE
 """
+
+def loader_cfg(n, prefixes, devs, intro, vias=("sdl",), typesonly=False):
+    return LOADER_CFG.format(n=n, prefixes=tlaset(prefixes), known=tlaset(sorted(devs)), intro=intro, vias=tlaset(vias),
+                             typesonly="TRUE" if typesonly else "FALSE")
+
 
 ARRANGE_CFG = """SPECIFICATION ASpec
 CONSTANTS KnownDev = {known}
@@ -140,10 +147,18 @@ def run_c14(ctx):
     n = max(p[0] for p in plans)
     for k, prefixes in plans:
         # quick: every second history, chosen by the seed (TLC still checks Atomic / AsIfNeverHappened on all of them)
-        res = vlib.run_tlc(ctx, "MCLoader", LOADER_CFG.format(n=k, prefixes=tlaset(prefixes), known=tlaset(sorted(devs)), intro="TRUE"), timeout=3400, xss="64m",
+        res = vlib.run_tlc(ctx, "MCLoader", loader_cfg(k, prefixes, devs, "TRUE"), timeout=3400, xss="64m",
                            vec_filter=(lambda i: i % 2 == ctx.seed % 2) if ctx.tier == "quick" else None)
         vlib.require_clean(res, "MCLoader")
         loadhist(ctx, res.vecs, "histories-%d-%s" % (k, "".join(prefixes)), {"verdict", "atomic", "schema", "intro"}, devs, extra=["-intro"])
+    # "or adding types": the same histories with documents delivered as Go-built types through Root.AddTypes wherever a
+    # document has such a form (no extend / schema block, nothing to read); only histories with at least one such load
+    tplans = [(2, ["p0", "p1", "p2", "p3"])] if ctx.tier == "quick" else [(3, ["p1"]), (2, ["p0", "p2", "p3"])]
+    for k, prefixes in tplans:
+        res = vlib.run_tlc(ctx, "MCLoader", loader_cfg(k, prefixes, devs, "TRUE", vias=("sdl", "types"), typesonly=True), timeout=3400, xss="64m",
+                           vec_filter=(lambda i: i % 2 == ctx.seed % 2) if ctx.tier == "quick" else None)
+        vlib.require_clean(res, "MCLoader (AddTypes)")
+        loadhist(ctx, res.vecs, "addtypes-histories-%d-%s" % (k, "".join(prefixes)), {"verdict", "atomic", "schema", "intro"}, devs, extra=["-intro"])
     record_and_judge(ctx, devs, 400 if ctx.tier == "quick" else 6000)
     ctx.exhaustive = True
     ctx.rule = ("every history of %d loads over the %d documents of spec/LoadUniverse.tla (12 valid ones incl. extend and schema blocks, 15 failing ones: "
@@ -202,7 +217,7 @@ def run_c13(ctx):
     rep = loadhist(ctx, res.vecs, "mutations", {"verdict", "offender", "schema"}, devs, extra=["-offender"])
     # the rules hold for the schema as a whole: a later load that breaks a rule for a type loaded earlier is refused too
     for k, prefixes in ([(1, ["p1", "p2", "p3"])] if ctx.tier == "quick" else [(2, ["p1", "p2", "p3"])]):
-        hres = vlib.run_tlc(ctx, "MCLoader", LOADER_CFG.format(n=k, prefixes=tlaset(prefixes), known=tlaset(sorted(devs)), intro="FALSE"), timeout=3400, xss="64m")
+        hres = vlib.run_tlc(ctx, "MCLoader", loader_cfg(k, prefixes, devs, "FALSE"), timeout=3400, xss="64m")
         vlib.require_clean(hres, "MCLoader")
         loadhist(ctx, hres.vecs, "histories-%d-%s" % (k, "".join(prefixes)), {"verdict", "schema"}, devs)
     record_and_judge(ctx, devs, 300 if ctx.tier == "quick" else 4000)
@@ -230,7 +245,7 @@ def run_c17(ctx):
     loadhist(ctx, res.vecs, "arranged-schemas", aspects, devs, extra=["-intro"])
     # histories of the loader state machine: the answer must follow the root through accepted and refused loads (no stale view)
     for k, prefixes in ([(2, ["p0", "p1", "p3"])] if ctx.tier == "quick" else [(3, ["p1"]), (2, ["p0", "p2", "p3"])]):
-        res = vlib.run_tlc(ctx, "MCLoader", LOADER_CFG.format(n=k, prefixes=tlaset(prefixes), known=tlaset(sorted(devs)), intro="TRUE"), timeout=3400, xss="64m",
+        res = vlib.run_tlc(ctx, "MCLoader", loader_cfg(k, prefixes, devs, "TRUE"), timeout=3400, xss="64m",
                            vec_filter=(lambda i: i % 3 == ctx.seed % 3) if ctx.tier == "quick" else None)
         vlib.require_clean(res, "MCLoader")
         loadhist(ctx, res.vecs, "histories-%d-%s" % (k, "".join(prefixes)), aspects, devs, extra=["-intro"])
